@@ -100,6 +100,16 @@ pub fn qualifier_key(rng: &mut Rng) -> String {
 
 /// A component value: mostly plain, often separator-rich.
 pub fn component(rng: &mut Rng, rich: bool) -> String {
+    if rng.chance(1, 40) {
+        // A long value (canonical strings beyond 256 and 512 bytes): buffers, chunking, fast paths.
+        let unit = *rng.pick(&["abcdefghij", "https://example.com/path/", "0123456789abcdef", "é", "x", "a b", "%41", "Lib-"]);
+        let target = *rng.pick(&[40usize, 120, 260, 300, 520, 1100]);
+        let mut s = String::new();
+        while s.len() < target {
+            s.push_str(unit);
+        }
+        return s;
+    }
     let n = match rng.below(8) {
         0..=3 => 1,
         4..=5 => 2,
